@@ -1,11 +1,141 @@
 """C08 ZUC keystream matches the specification however it is requested"""
-from .. import rules_k as K, paramalg as pa
+from .. import rules_k as K, rules_p as RP, rules_i as I, rules_g as G, frame as FR, paramalg as pa
+from ..prov import Prov, norm, last, const_int
+from ..builder import Canon, root_local
+from ..facts import pp_place
+
+TAPS = 'add31(add31(add31(add31(add31($self.s[0], rot31($self.s[0], 8)), rot31($self.s[4], 20)), rot31($self.s[10], 21)), rot31($self.s[13], 17)), rot31($self.s[15], 15))'
+HELPERS = {
+    'make_u32': 'BitOr(BitOr(BitOr(Shl($a, 24), Shl($b, 16)), Shl($c, 8)), $d)',
+    'make_u31': 'BitOr(BitOr(Shl($k, 23), Shl($d, 8)), $iv)',
+    'sbox': 'make_u32((S0[(Shr($x, 24) as usize)] as u32), (S1[(BitAnd(Shr($x, 16), 255) as usize)] as u32), (S0[(BitAnd(Shr($x, 8), 255) as usize)] as u32), (S1[(BitAnd($x, 255) as usize)] as u32))',
+    'rot31': 'BitAnd(BitOr(Shl($a, $k), Shr($a, SubWithOverflow(31, $k).0)), 0x7fffffff)',
+    'add31': 'wrapping_add(BitAnd(wrapping_add($a, $b), 0x7fffffff), Shr(wrapping_add($a, $b), 31))',
+    'l1': 'BitXor(BitXor(BitXor(BitXor($x, rotate_left($x, 2)), rotate_left($x, 10)), rotate_left($x, 18)), rotate_left($x, 24))',
+    'l2': 'BitXor(BitXor(BitXor(BitXor($x, rotate_left($x, 8)), rotate_left($x, 14)), rotate_left($x, 22)), rotate_left($x, 30))',
+}
+
+
+def self_stores(fn, F):
+    P = Prov(fn, F, cut_loops=True); cn = Canon(fn, P)
+    out = []
+    for b, i, st in fn.stmts():
+        if st['k'] == 'assign' and st['lhs']['l'] == 1 and st['lhs']['p'] and st['lhs']['p'][0] == 'deref':
+            idx = [cn.c(norm(P.local(p['idx'], b, i))) for p in st['lhs']['p'] if isinstance(p, dict) and 'idx' in p]
+            fld = [p['name'] for p in st['lhs']['p'] if isinstance(p, dict) and 'f' in p]
+            out.append(('.'.join(fld) + ''.join('[%s]' % x for x in idx), I.shorten_vars(cn.c(norm(P.rvalue(st['rv'], b, i, 0))))))
+    return out
+
+
+def lfsr(cx, name, new_cell):
+    fn = cx.fn('<impl ZUC>::' + name, 'I-ZUC')
+    if fn is None:
+        return
+    st = self_stores(fn, cx.F)
+    want = [('s[each(Range::Range{0, 15})]', 'phi($self.s[AddWithOverflow(each(Range::Range{0, 15}), 1).0])'), ('s[15]', 'phi(0x7fffffff | %s)' % new_cell)]
+    want2 = [(a, b.replace('phi($self.s[AddWithOverflow(each(Range::Range{0, 15}), 1).0])', '$self.s[AddWithOverflow(each(Range::Range{0, 15}), 1).0]')) for a, b in want]
+    cx.add('I-ZUC', name, st in (want, want2), '%s: s16 = %s (0 replaced by 2^31-1), then the register shifts by one cell' % (name, FR.short(new_cell, 120)), fn.loc(), {'got': st})
+    P = Prov(fn, cx.F, cut_loops=True); cn = Canon(fn, P)
+    z = [p for _, p, _, _ in G.bool_switches(fn, P) if p.kind == 'eq' and cn.c(p.args[0]) == new_cell and const_int(p.args[1]) == 0]
+    cx.add('I-ZUC', name + '/zero', len(z) == 1, 'the replacement by 2^31-1 is taken exactly when the new cell is 0', fn.loc())
 
 
 def run(cx):
-    cx.not_decided.append('equality of the generated words with the ZUC-128 specification keystream (functional)')
+    cx.not_decided.append('equality of the words with the ZUC-128 specification keystream: decided only through structural identity of every component (tables, LFSR taps and modes, BR, F, L1/L2, S-box layout, initialisation schedule) and the request-split independence argument, not by evaluation')
+    F = cx.F
     K.oracle_selfcheck(cx, 'zuc')
     z = pa.zuc()
     K.k_array(cx, 'K-ZUC', 'gm_zuc', 'S0', z.s0, 1)
     K.k_array(cx, 'K-ZUC', 'gm_zuc', 'S1', z.s1, 1)
     K.k_array(cx, 'K-ZUC', 'gm_zuc', 'D', z.d, 4)
+    for name, want in HELPERS.items():
+        f = cx.fn('gm_zuc::' + name, 'I-ZUC')
+        if f is not None:
+            r = [x[1] for x in I.returns(f, F)]
+            cx.add('I-ZUC', name, r == [want], '%s = %s' % (name, [FR.short(x, 160) for x in r]), f.loc())
+    lfsr(cx, 'lfsr_with_work_mode', TAPS)
+    lfsr(cx, 'lfsr_with_initialization_mode', 'add31(%s, $u)' % TAPS)
+    br = cx.fn('<impl ZUC>::bit_reconstruction', 'I-ZUC')
+    if br is not None:
+        st = self_stores(br, F)
+        want = [('x[0]', 'BitOr(Shl(BitAnd($self.s[15], 0x7fff8000), 1), BitAnd($self.s[14], 65535))'),
+                ('x[1]', 'BitOr(Shl(BitAnd($self.s[11], 65535), 16), Shr($self.s[9], 15))'),
+                ('x[2]', 'BitOr(Shl(BitAnd($self.s[7], 65535), 16), Shr($self.s[5], 15))'),
+                ('x[3]', 'BitOr(Shl(BitAnd($self.s[2], 65535), 16), Shr($self.s[0], 15))')]
+        cx.add('I-ZUC', 'bit_reconstruction', st == want, 'X0..X3 = s15H||s14L, s11L||s9H, s7L||s5H, s2L||s0H', br.loc(), {'got': st})
+    ff = cx.fn('<impl ZUC>::f', 'I-ZUC')
+    if ff is not None:
+        st = self_stores(ff, F)
+        W1 = 'wrapping_add($self.r1, $self.x[1])'; W2 = 'BitXor($self.r2, $self.x[2])'
+        want = [('r1', 'sbox(l1(BitOr(Shl(%s, 16), Shr(%s, 16))))' % (W1, W2)), ('r2', 'sbox(l2(BitOr(Shl(%s, 16), Shr(%s, 16))))' % (W2, W1))]
+        r = [I.shorten_vars(x[1]) for x in I.returns(ff, F)]
+        cx.add('I-ZUC', 'f', st == want and r == ['wrapping_add(BitXor($self.x[0], $self.r1), $self.r2)'],
+               'W = (X0 ^ R1) + R2; R1 = S(L1(W1L||W2H)), R2 = S(L2(W2L||W1H)) with W1 = R1 + X1, W2 = R2 ^ X2 (old registers)', ff.loc(), {'stores': st, 'ret': r})
+    # ---- initialisation
+    nw = cx.fn('<impl ZUC>::new', 'I-ZUC')
+    if nw is not None:
+        P = Prov(nw, F, cut_loops=True); cn = Canon(nw, P)
+        st = I.stores(nw, F, 's')
+        E16 = 'each(Range::Range{0, 16})'
+        cx.add('I-ZUC', 'new/load', st == [(E16, 'make_u31(($k[%s] as u32), D[%s], ($iv[%s] as u32))' % (E16, E16, E16))], 's_i = k_i || d_i || iv_i for i in 0..16', nw.loc())
+        ag = G.aggr_blocks(nw, 'ZUC::ZUC')
+        ok = len(ag) == 1 and [I.shorten_vars(cn.c(norm(P.operand(o, ag[0][0], ag[0][1])))) for o in ag[0][2]['ops']] == ['s', '0', '0', 'repeat{0}']
+        cx.add('I-ZUC', 'new/regs', ok, 'R1 = R2 = 0 at the start of initialisation', nw.loc())
+        lp = I.find_loop(nw, P, cn, 'Range::Range{0, 32}')
+        seq = []
+        if lp:
+            hdr, loop, latches = lp
+            for b in sorted(loop, key=lambda x: len(nw.dominators().get(x, ()))):
+                t = nw.blocks[b]['term']
+                if t['k'] == 'call' and t['fn']['k'] == 'def' and t['fn']['local']:
+                    seq.append((last(t['fn']['name']), [I.shorten_vars(cn.c(a))[:60] for a in G.call_args(nw, P, b)][1:]))
+        want = [('bit_reconstruction', []), ('f', []), ('lfsr_with_initialization_mode', ['Shr(f(ZUC::ZUC{s, 0, 0, repeat{0}}), 1)'])]
+        cx.add('I-ZUC', 'new/init-rounds', seq == want, '32 initialisation rounds of BR; W = F(); LFSRWithInitialisationMode(W >> 1): %s' % seq, nw.loc())
+        after = []
+        if lp:
+            for b, t in nw.calls():
+                if b not in lp[1] and t['fn']['k'] == 'def' and t['fn']['local'] and lp[0] in nw.dominators().get(b, ()):
+                    after.append((last(t['fn']['name']), [cn.c(a) for a in G.call_args(nw, P, b)][1:]))
+        cx.add('I-ZUC', 'new/discard', after in ([('generate_keystream', ['1'])], [('bit_reconstruction', []), ('f', []), ('lfsr_with_work_mode', [])]), 'one work-mode step whose output word is discarded follows the 32 rounds: %s' % after, nw.loc())
+    # ---- keystream generation and request-split independence
+    gk = cx.fn('<impl ZUC>::generate_keystream', 'P-SPLIT')
+    if gk is not None:
+        P = Prov(gk, F, cut_loops=True); cn = Canon(gk, P)
+        lp = I.find_loop(gk, P, cn, 'Range::Range{0, $n}')
+        if lp is None:
+            cx.violate('P-SPLIT', 'generate_keystream/loop', 'the loop `for _ in 0..n` was not found', gk.loc())
+            return
+        hdr, loop, latches = lp
+        # calls that receive self mutably
+        muts = [(b, last(t['fn']['name'])) for b, t in gk.calls() if t['fn']['k'] == 'def' and t['fn']['local'] and t['args'] and gk.local_ty(t['args'][0]['pl']['l']).startswith('&mut ')]
+        order = [n for b, n in sorted(muts, key=lambda x: len(gk.dominators().get(x[0], ())))]
+        cx.add('P-SPLIT', 'generate_keystream/step', order == ['bit_reconstruction', 'f', 'lfsr_with_work_mode'], 'one keystream word = BR; Z = F() ^ X3; LFSRWithWorkMode, in this order: %s' % order, gk.loc())
+        outside = [n for b, n in muts if b not in loop]
+        cx.add('P-SPLIT', 'generate_keystream/no-outside-mutation', not outside, 'the generator state is not touched outside the per-word loop body: %s' % (outside or 'none'), gk.loc())
+        # every state-changing call is executed on EVERY iteration: removing its block disconnects loop entry from the back edge
+        body_entry = [s_ for s_ in gk.succ(hdr) if s_ in loop]
+        uncond = True
+        for b, n in muts:
+            if b in loop:
+                for lt in latches:
+                    r = gk.reachable(hdr, removed_blocks={b})
+                    if lt in r and lt != b:
+                        uncond = False
+        cx.add('P-SPLIT', 'generate_keystream/unconditional', uncond, 'BR, F and the LFSR step run on every iteration (no iteration-dependent skipping)', gk.loc())
+        # no argument other than self flows into the state-changing calls; no direct stores to *self
+        extra = [(n, len(gk.blocks[b]['term']['args'])) for b, n in muts if len(gk.blocks[b]['term']['args']) != 1]
+        direct = [pp_place(gk, st['lhs']) for b, i, st in gk.stmts() if st['k'] == 'assign' and st['lhs']['l'] == 1 and st['lhs']['p']]
+        cx.add('P-SPLIT', 'generate_keystream/no-request-flow', not extra and not direct, 'nothing derived from the request size, the loop counter or the output vector reaches the state (calls take only self; no direct stores): %s %s' % (extra, direct), gk.loc())
+        # switches inside the loop: only the iterator
+        sw = [b for b in loop if gk.blocks[b]['term']['k'] == 'switch']
+        sw_ok = all(cn.c(norm(P.operand(gk.blocks[b]['term']['op'], b, len(gk.blocks[b]['stmts'])))).startswith('discr(next(') for b in sw)
+        cx.add('P-SPLIT', 'generate_keystream/branches', sw_ok, 'the only branch in the loop is the iterator test', gk.loc())
+        ps = [FR.arg_canon(gk, P, cn, b, 1) for b in FR.calls_of(gk, 'push')]
+        cx.add('P-SPLIT', 'generate_keystream/word', ps == ['BitXor(f($self), $self.x[3])'], 'each pushed word is F() ^ X3 of the current state: %s' % ps, gk.loc())
+        cx.add('P-SPLIT', 'generate_keystream/count', FR.arg_canon(gk, P, cn, hdr, 0) == 'into_iter(Range::Range{0, $n})', 'exactly n words per request', gk.loc())
+    a = F.adts.get('gm_zuc::ZUC')
+    if a:
+        pub = [f['name'] for v in a['variants'] for f in v['fields'] if f['public']]
+        cx.add('P-SPLIT', 'ZUC/private', not pub and a.get('freeze') is True, 'generator state fields are private and free of interior mutability (only generate_keystream advances it)', '')
+    muters = [n for n, f in F.fns.items() if f.crate == 'gm_zuc' and f.public and '<impl ZUC>' in n and f.arg_count >= 1 and f.local_ty(1).startswith('&mut ')]
+    cx.add('P-SPLIT', 'ZUC/public-mutators', [last(m) for m in muters] == ['generate_keystream'], 'the only public method taking &mut self is generate_keystream: %s' % [last(m) for m in muters], '')
